@@ -305,6 +305,20 @@ fn logger() -> slog::Logger {
 impl Node {
     fn new(dir: PathBuf, chain: Vec<Blk>, max: usize) -> Node {
         std::fs::create_dir_all(&dir).unwrap();
+        // the migrations (several `vacuum`) are applied once to a template file that is copied for every node
+        let template = dir.parent().unwrap().join("template.sqlite3");
+        if !template.exists() {
+            let tmp = dir.parent().unwrap().join("template-build.sqlite3");
+            {
+                let _c = ConnectionBuilder::open_file(&tmp)
+                    .with_migrations(mithril_persistence::database::cardano_transaction_migration::get_migrations())
+                    .with_options(&[ConnectionOptions::EnableForeignKeys])
+                    .build()
+                    .expect("template");
+            }
+            std::fs::rename(&tmp, &template).unwrap();
+        }
+        std::fs::copy(&template, dir.join("cardano_tx.sqlite3")).unwrap();
         let pool: SqliteConnectionPool = ConnectionBuilder::open_file(&dir.join("cardano_tx.sqlite3"))
             .with_migrations(mithril_persistence::database::cardano_transaction_migration::get_migrations())
             .with_options(&[ConnectionOptions::EnableForeignKeys, ConnectionOptions::EnableWriteAheadLog])
@@ -457,7 +471,7 @@ struct History {
     targets_below_tip: bool,
 }
 
-fn gen_history(rng: &mut Rng, thorough: bool, flavour: u64) -> History {
+fn gen_history(rng: &mut Rng, thorough: bool, flavour: u64, partial_beacons: bool) -> History {
     let mut g = Gen { rng, next_bh: 0, next_tx: 0 };
     let max = *g.rng.pick(&[1usize, 2, 3, 4, 4, 7, 100]);
     let first_num = *g.rng.pick(&[0u64, 0, 0, 1, 7, 14, 15, 37]);
@@ -586,19 +600,31 @@ fn gen_history(rng: &mut Rng, thorough: bool, flavour: u64) -> History {
             events.push(Ev::Mut(m));
         }
     }
-    // beacons to evaluate the signable roots at
-    let t = last_target;
+    // beacons to evaluate the signable roots at: the final target (the beacon a signer would
+    // sign right after this import), complete-range beacons below it, and - in one history
+    // out of four - partial beacons below it
+    let t = match events.last() {
+        Some(Ev::Import(t, _)) => *t,
+        _ => last_target,
+    };
     let mut beacons = vec![t];
     if t >= 15 {
         beacons.push(t / 15 * 15 - 1); // last complete range end at or below t
+        beacons.push((g.rng.below(t / 15) + 1) * 15 - 1);
+    } else {
+        g.rng.next();
     }
-    beacons.push(g.rng.below(t + 1));
-    if t >= 3 {
-        let b = g.rng.below(t + 1);
-        beacons.push(if (b + 1) % 15 == 0 { b.saturating_sub(1) } else { b }); // a partial beacon
+    let b1 = g.rng.below(t + 1);
+    let b2 = g.rng.below(t + 1);
+    if partial_beacons {
+        beacons.push(b1);
+        beacons.push(b2);
     }
     beacons.sort();
     beacons.dedup();
+    if partial_beacons {
+        kind.push_str("+partial-beacons");
+    }
     if !targets_below_tip {
         kind.push_str("+target-beyond-tip");
     }
@@ -666,7 +692,9 @@ async fn run_history(h: &History, work: &PathBuf, id: u64) -> Outcome {
     let scratch_tables = match last_target {
         Some(t) => {
             let sc = Node::new(work.join(format!("c{}-sT", id)), final_chain.clone(), h.max);
-            sc.import(t).await;
+            // effective target: the store keeps what an earlier, further import brought
+            let t_eff = t.max(tables.blocks.last().map_or(0, |b| b.num));
+            sc.import(t_eff).await;
             Some(sc.tables().await)
         }
         None => None,
@@ -695,6 +723,9 @@ fn obs_blocks(bs: &[Blk]) -> String {
 
 fn main() {
     let args = hc::parse_args();
+    // a foreign-key failure surfaces as a panic of the importer's blocking worker (cursor.rs unwrap),
+    // which the importer turns into an `Err`: expected in the known classes, keep stderr quiet
+    std::panic::set_hook(Box::new(|_| {}));
     let mut rng = Rng::new(args.seed);
     let mut sink = Sink::new(&args);
     let work = PathBuf::from(std::env::var("VERIF_WORK").unwrap_or_else(|_| ".".into())).join("db");
@@ -706,7 +737,7 @@ fn main() {
     for i in 0..n_cases {
         let flavour = [0u64, 1, 1, 2, 2, 3, 4, 4][(i % 8) as usize];
         let mut sub = rng.fork();
-        let h = gen_history(&mut sub, args.thorough, flavour);
+        let h = gen_history(&mut sub, args.thorough, flavour, i % 5 == 4);
         let Some(id) = sink.wants() else { continue };
         let o = rt.block_on(run_history(&h, &work, id));
 
